@@ -23,6 +23,7 @@ RULE = (
     "(what every optimiser step does); ModelWrapper cases with identity / channel-permuting inner models on unique ids; three "
     "fixed partial-bank U-Net configurations. Non-trivial: >=2 output types or conventional relayout with k>=1; distinct by configuration."
 )
+RULE += " Also: a group-averaged variant of every third model, kernel sizes, Climate1D cases (past/future 1..3, every type order)."
 ASSUMPTIONS = ["type order is checked on eager calls only (under jit JAX sorts dict keys; C12/C13 say order must then not matter)", "reachability computed from the bank's type set (vmon/mlgen.py:type_flow)"]
 ANCHORS = [
     "ginjax.models:UNet.__call__", "ginjax.models:ResNet.__call__", "ginjax.models:DilResNet.__call__", "ginjax.models:ConvBlock.__call__", "ginjax.models:ModelWrapper.__call__",
